@@ -86,7 +86,7 @@ def corrupt(rng, spec):
 class C01(Prop):
     id = "C01"
     lean_module = "ProductMD.Properties.C01"
-    quick_budget = 900
+    quick_budget = 750
     thorough_budget = 20000
     rule = ("generated compose descriptions (all release/compose types, labels, layered/internal, forests to depth 4 with all variant "
             "types, layered-product releases, dashed top-level UIDs, child arches within the parent's, any subset of the 14 categories, "
